@@ -142,6 +142,69 @@ def build_msg(E):
     return cls
 
 
+# ------------------------------------------------------------------ slow path: classes generated by the plugin
+
+# protoc (proto3) rejects two value names of one enum that differ only in case: no "a" next to "A"
+PLUGIN_NAMES = [n for n in NAMES if not n.startswith("_") and n != "a"]
+assert len({n.lower() for n in PLUGIN_NAMES}) == len(PLUGIN_NAMES)
+
+
+def proto_text(defs):
+    """one wrapper message per definition (enum value names are scoped to the enclosing message):
+    the enum `Qq` and the five field positions"""
+    out = ['syntax = "proto3";', "package c20gen;"]
+    for i, d in enumerate(defs):
+        alias = len({v for _, v in d}) < len(d)
+        out.append("message W%d {" % i)
+        out.append("  enum Qq {")
+        if alias:
+            out.append("    option allow_alias = true;")
+        out += ["    %s = %d;" % (n, v) for n, v in d]
+        out.append("  }")
+        out += ["  Qq single_e = 1;", "  repeated Qq rep_e = 2;", "  map<int32, Qq> map_e = 3;",
+                "  oneof grp { Qq one_e = 4; }", "  optional Qq opt_e = 5;", "}"]
+    return "\n".join(out) + "\n"
+
+
+def gen_plugin_def(rng):
+    """proto3: the first value of an enum must be 0"""
+    d = gen_def(rng)
+    names = rng.sample(PLUGIN_NAMES, len(d))
+    d = [[n, v] for n, (_, v) in zip(names, d)]
+    d[0][1] = 0
+    return d
+
+
+def build_plugin(defs):
+    """run protoc + the plugin of the working tree; returns (gen, [(E, M)...]) or (gen, None)"""
+    import pluginrun
+    gen = pluginrun.generate({"c20gen.proto": proto_text(defs)})
+    if not gen.ok:
+        return gen, None
+    mod = gen.import_module("c20gen")
+    return gen, [(getattr(mod, "W%dQq" % i), getattr(mod, "W%d" % i)) for i in range(len(defs))]
+
+
+def build_classes(case):
+    """(E, M, cleanup) for a case, according to its style"""
+    style = case.get("style", "type")
+    d = [tuple(x) for x in case["def"]]
+    if style == "plugin":
+        gen, cl = build_plugin([d])
+        if cl is None:
+            gen.cleanup()
+            raise RuntimeError("protoc / plugin failed: " + gen.log[-400:])
+        return cl[0][0], cl[0][1], gen.cleanup
+    E = build_enum(d, style)
+    M = build_msg(E)
+
+    def cleanup():
+        # every class caches a copy of its module's globals for type-hint resolution: keep the module small
+        for c in (E, M):
+            _mod.__dict__.pop(c.__name__, None)
+    return E, M, cleanup
+
+
 def attempt(fn, *a):
     try:
         return fn(*a)
@@ -264,9 +327,18 @@ def obs_msg(m):
             "opt_e": None if m.opt_e is None else int(m.opt_e)}
 
 
-def run_oracles(case):
-    """case = {"def": [[name, number]...], "style": "type"|"exec", "numbers": [int...]}
+def run_oracles(case, classes=None):
+    """case = {"def": [[name, number]...], "style": "type"|"exec"|"plugin", "numbers": [int...]}
     returns a list of (kind, detail)"""
+    if classes is None:
+        try:
+            E, M, cleanup = build_classes(case)
+        except Exception as e:  # noqa: BLE001
+            return [("class-definition-raises", repr(e))]
+        try:
+            return run_oracles(case, (E, M))
+        finally:
+            cleanup()
     d = [tuple(x) for x in case["def"]]
     numbers = list(case["numbers"])
     out = []
@@ -274,10 +346,7 @@ def run_oracles(case):
     def bad(kind, detail):
         out.append((kind, detail))
 
-    E = attempt(build_enum, d, case.get("style", "type"))
-    if isinstance(E, Exception):
-        bad("class-definition-raises", repr(E))
-        return out
+    E, M = classes
     defined = {v for _, v in d}
 
     # -- sentence 1: lookup by number / by name returns the one canonical member object
@@ -383,12 +452,10 @@ def run_oracles(case):
             break
     if not isinstance(member, Exception) and (member.name != first_name(d, tgt_v) or member.value != tgt_v):
         bad("member-mutable", "name/value of %r changed" % (member,))
+    if any(k in ("class-mutable", "member-mutable") for k, _ in out):
+        return out            # the class is damaged now: what follows would only report consequences
 
     # -- sentence 2: accepted wherever a member is; number kept through binary and JSON round trips
-    M = attempt(build_msg, E)
-    if isinstance(M, Exception):
-        bad("message-with-enum-field-raises", repr(M))
-        return out
     vals = [attempt(E.try_value, v) for v in numbers]
     vals = [x for x in vals if not isinstance(x, Exception)]
     if not vals:
@@ -527,12 +594,17 @@ def cases(chk, n):
     return out
 
 
-def correspond(chk, drv, case, n_ops, eid):
+def correspond(chk, drv, case, n_ops, eid, classes=None):
     """lock-step run of a random op sequence on the model class and on the real class"""
     rng = chk.rng
     d = case["def"]
-    E = build_enum(d, case["style"])
-    M = build_msg(E)
+    if classes is None:
+        E, M, cleanup = build_classes(case)
+        try:
+            return correspond(chk, drv, case, n_ops, eid, (E, M))
+        finally:
+            cleanup()
+    E, M = classes
     ops = gen_ops(rng, d, case["numbers"], n_ops)
     lines = [def_line(eid, d)] + ["ENUMOP %s %s" % (eid, op) for op in ops]
     wire = [v for v in case["numbers"]]
@@ -571,7 +643,7 @@ def run(chk, drv):
     chk.extra["assumptions"] = ["member names are identifiers that are not attributes of int / betterproto.Enum (getattr op)",
                                 "names of a definition are pairwise distinct (they are keys of the class namespace dict)"]
     quick = chk.tier == "quick"
-    cs = cases(chk, 500 if quick else 6000)
+    cs = cases(chk, 500 if quick else 5000)
     for i, case in enumerate(cs):
         d = case["def"]
         nums = {v for _, v in d}
@@ -592,6 +664,25 @@ def run(chk, drv):
         chk.count("oracle_numbers_defined", sum(1 for v in case["numbers"] if v in nums))
         if fl:
             report(chk, case, fl)
+    # slow path: the same checks on classes generated by protoc + the plugin of the working tree
+    for b in range(1 if quick else 6):
+        defs = [gen_plugin_def(chk.rng) for _ in range(12 if quick else 40)]
+        gen, cl = build_plugin(defs)
+        try:
+            if cl is None:
+                chk.fail("plugin-fails-on-enum-definition", {"proto": proto_text(defs)}, gen.log[-600:])
+                continue
+            for i, (d, (E, M)) in enumerate(zip(defs, cl)):
+                case = {"def": d, "style": "plugin", "numbers": gen_numbers(chk.rng, d)}
+                chk.count("def_generated_by_plugin")
+                if drv:
+                    correspond(chk, drv, case, chk.rng.randint(12, 40), "p%d" % (i % 7), (E, M))
+                fl = run_oracles(case, (E, M))
+                chk.case("oracle " + json.dumps(case, sort_keys=True), True, None)
+                if fl:
+                    report(chk, case, fl)
+        finally:
+            gen.cleanup()
 
 
 def classify(failure, known):
@@ -627,6 +718,13 @@ def replay(chk, rp):
         for k, dt in got:
             print("  %s: %s" % (k, dt))
         return any(k == fl.get("kind") for k, _ in got) or (fl.get("kind") == "regression-of-fixed-finding" and bool(got))
+    if fl and isinstance(fl.get("input"), dict) and "proto" in fl["input"]:
+        import pluginrun
+        gen = pluginrun.generate({"c20gen.proto": fl["input"]["proto"]})
+        try:
+            return not gen.ok
+        finally:
+            gen.cleanup()
     # correspondence replay: re-run the recorded op sequence on model and implementation
     from common import Driver
     still = False
@@ -637,8 +735,7 @@ def replay(chk, rp):
             continue
         drv = Driver()
         try:
-            E = build_enum(inp["def"], inp.get("style", "type"))
-            M = build_msg(E)
+            E, M, cleanup = build_classes(inp)
             reps = drv.ask([def_line("r", inp["def"])] + ["ENUMOP r %s" % op for op in inp["ops"]])
             for op, rep in zip(inp["ops"], reps[1:]):
                 got = impl_op(E, M, op)
